@@ -1,11 +1,13 @@
 package checks
 
 import (
+	"strings"
 	"testing"
 
 	"pgregory.net/rapid"
 
 	"verif/evid"
+	"verif/vfs"
 )
 
 // C09 (fault half): no call blocks forever and Close always returns. The
@@ -64,4 +66,52 @@ func TestC09(t *testing.T) {
 			rec.Sample(map[string]any{"faults": c.Faults, "armat": c.ArmAt, "healat": c.HealAt, "ops": len(c.Ops), "fired": describeFired(st.fired)})
 		}
 	})
+}
+
+// TestC09W is the concurrent half of C09: the writer programs of C10 (2-12
+// concurrent writers, a racing Close / transaction / CompactRange /
+// SetReadOnly, journal faults in most cases), judged only on whether every
+// call returns.
+func TestC09W(t *testing.T) {
+	if replayFile() != "" {
+		c := &WCase{}
+		if err := loadReplay(c); err != nil {
+			t.Fatal(err)
+		}
+		for i := 0; i < envInt("VERIF_REPLAY_RUNS", 30); i++ {
+			if _, err := runWriters(c); err != nil && isHang(err) {
+				t.Fatalf("replay failed (run %d): %v", i, err)
+			}
+		}
+		return
+	}
+	rec := evid.New("C09")
+	defer rec.Flush()
+	rapid.Check(t, func(rt *rapid.T) {
+		c := drawWCase(rt)
+		if c.Fault == nil && rapid.IntRange(0, 2).Draw(rt, "forcefault") != 0 {
+			c.Fault = &vfs.Fault{Kind: rapid.SampledFrom([]string{vfs.OpWrite, vfs.OpSync, vfs.OpCreate}).Draw(rt, "fk2"), FType: "journal",
+				Nth: rapid.IntRange(1, 12).Draw(rt, "nth2"), Count: rapid.SampledFrom([]int{1, 3}).Draw(rt, "cnt2")}
+		}
+		saveJSON("VERIF_INFLIGHT", c)
+		st, err := runWriters(c)
+		if err != nil && isHang(err) {
+			reportFail("C09", c, err)
+			rt.Fatalf("C09 violated: %v", err)
+		}
+		var cl []string
+		if st.failedGroups > 0 {
+			cl = append(cl, "writers:failed-group")
+		}
+		if st.racer {
+			cl = append(cl, "writers:racer-"+c.Racer)
+		}
+		nt := st.multi > 0 && (st.failedGroups > 0 || st.racer)
+		rec.Case(evid.FP(c), nt, append(cl, "concurrent-writers")...)
+	})
+}
+
+func isHang(err error) bool {
+	m := err.Error()
+	return strings.Contains(m, "did not all return") || strings.Contains(m, "never returned")
 }
